@@ -171,6 +171,22 @@ pub struct SValueString {
     #[serde(default)]
     a: Option<String>,
 }
+/// optional `$value` content, also inside list items (the `xsi:nil` handling of a parent element
+/// asks `deserialize_option` about text, not only about elements)
+#[derive(Deserialize, Debug, PartialEq)]
+pub struct SOptValue {
+    #[serde(rename = "$value", default)]
+    v: Option<String>,
+}
+#[derive(Deserialize, Debug, PartialEq)]
+pub struct SOptHolder {
+    #[serde(rename = "@x", default)]
+    x: Option<String>,
+    #[serde(default = "empty")]
+    a: BVec<SOptValue>,
+    #[serde(default)]
+    b: Option<SOptValue>,
+}
 #[derive(Deserialize, Debug)]
 pub struct SIgnored {
     #[serde(default)]
@@ -260,10 +276,10 @@ pub struct SLazy {
     b: Option<Lazy<0>>,
 }
 
-pub const TARGETS: [&str; 32] = [
+pub const TARGETS: [&str; 34] = [
     "SAttr", "SReq", "SLists", "SText", "STextList", "Ch", "SValue", "SValueVec", "SValueTuple", "SValueString", "SIgnored", "NStr",
     "NStruct", "UnitS", "SPrims", "UnitOnly", "SEnumFields", "SNestedSeq", "BVec<Ch>", "BVec<String>", "BVec<Option<String>>",
-    "(String,u8)", "Option<SAttr>", "()", "BMap", "String", "IgnoredAny", "Lazy<1>", "Lazy<0>", "BVec<Lazy<1>>", "BVec<Lazy<0>>", "SLazy",
+    "(String,u8)", "Option<SAttr>", "()", "BMap", "String", "IgnoredAny", "Lazy<1>", "Lazy<0>", "BVec<Lazy<1>>", "BVec<Lazy<0>>", "SLazy", "SOptValue", "SOptHolder",
 ];
 
 fn de_any<T: DeserializeOwned>(input: &[u8], via_reader: bool, piece: usize) -> Result<bool, String> {
@@ -320,13 +336,16 @@ pub fn de_target(t: usize, input: &[u8], via_reader: bool, piece: usize) -> Resu
         29 => de_any::<BVec<Lazy<1>>>(input, via_reader, piece),
         30 => de_any::<BVec<Lazy<0>>>(input, via_reader, piece),
         31 => de_any::<SLazy>(input, via_reader, piece),
+        32 => de_any::<SOptValue>(input, via_reader, piece),
+        33 => de_any::<SOptHolder>(input, via_reader, piece),
         _ => Err("bad target".into()),
     }
 }
 
-pub const TOKENS: [&str; 25] = [
+pub const TOKENS: [&str; 27] = [
     "<a>", "</a>", "<b>", "</b>", "<a/>", "<b x=\"1\"/>", "<c x=\"1\">", "</c>", "t", " ", "1", "<![CDATA[c]]>", "<![CDATA[]]>", "<!--c-->",
     "<!DOCTYPE d>", "<?p?>", "&lt;", "&bad;", "<a xsi:nil=\"true\">", "<a x=\"1\" x=\"2\">", "<a x=>", "<a \"k='v\">", "<a xmlns:xsi=\"http://www.w3.org/2001/XMLSchema-instance\" xsi:nil=\"1\"/>", "1\t2 \r\n3", "<b x=\"1\t2\n 3\"/>",
+    "<a xmlns:xsi=\"http://www.w3.org/2001/XMLSchema-instance\" xsi:nil=\"true\">", "<b xmlns:n=\"http://www.w3.org/2001/XMLSchema-instance\" n:nil=\"1\">",
 ];
 
 // ------------------------------------------------------------------------------------------------
@@ -439,11 +458,11 @@ fn call(acc: &mut Acc, order: (u32, u64), input: &[u8], t: usize, via_reader: bo
 
 pub fn run(ctx: &Ctx) {
     ctx.set_rule(
-        "token soup: every sequence of up to N tokens over 25 tokens (start/end/empty tags of names a, b, c with and without \
+        "token soup: every sequence of up to N tokens over 27 tokens (start/end/empty tags of names a, b, c with and without \
          attributes, text, blank, number, CDATA, empty CDATA, comment, DOCTYPE, PI, a predefined and an unknown entity reference, \
          xsi:nil in two spellings, duplicate attribute, attribute without value, an attribute whose quote the iterator cannot close although the tag scanner could), bare and wrapped in \
          <r>..</r>; plus every truncation at every byte of every plain serialization of the C06 family's quick value set. Each \
-         document x 32 target types (structs with attributes / options / lists / nested structs, $text, $text list, $value enum \
+         document x 34 target types (structs with attributes / options / lists / nested structs, $text, $text list, $value enum \
          (single, Vec, tuple), $value string, IgnoredAny and unit fields, newtypes, unit struct, primitives, unit-only enum with \
          serde(other), nested sequences, top-level enum / sequence / tuple / Option / unit / map / String / IgnoredAny, and hand-written lazy visitors that read only the \
          first map key or nothing at all) x from_str \
@@ -460,7 +479,7 @@ pub fn run(ctx: &Ctx) {
     let k = TOKENS.len() as u64;
     let nt = TARGETS.len();
     let pieces: &[usize] = if t == Tier::Quick { &[1] } else { &[1, 0] };
-    ctx.layer("token_soup", 0, count_upto(k, n) * 2, json!({"tokens": TOKENS, "max_tokens": n, "wrappers": ["bare", "<r>..</r>"], "targets": TARGETS}), |i, acc| {
+    ctx.layer("token_soup", 0, count_upto(k, n) * 2, json!({"tokens": TOKENS, "max_tokens": n, "wrappers": ["bare", "<r>..</r>"], "targets": TARGETS.to_vec()}), |i, acc| {
         let mut d = Vec::new();
         decode_upto(k, n, i / 2, &mut d);
         let mut doc = String::new();
